@@ -3,7 +3,7 @@
 """Wrapper for SQLite3 functionality.
 
 The module holds four parts.
-`prefix_clause()` builds a LIKE predicate that matches a column against a literal prefix.
+`prefix_clause()` builds a GLOB predicate that matches a column against a literal prefix.
 `connect()` collects the connection settings that every StepUp database is opened with.
 `DBSession` serializes all access to one such connection,
 with a lock and explicit transactions.
@@ -48,12 +48,12 @@ SQLArgs = Sequence[Any] | Mapping[str, Any]
 
 
 #
-# LIKE pattern helpers
+# Prefix pattern helpers
 #
 
 
 def prefix_clause(column: str, prefix: str) -> tuple[str, str]:
-    """Build a LIKE predicate and its argument for matching a column against a prefix.
+    """Build a GLOB predicate and its argument for matching a column against a prefix.
 
     Parameters
     ----------
@@ -62,7 +62,7 @@ def prefix_clause(column: str, prefix: str) -> tuple[str, str]:
         This must be a literal from the calling code, never user input.
     prefix
         The literal prefix to match.
-        Characters with a special meaning in LIKE patterns are escaped.
+        Characters with a special meaning in GLOB patterns are escaped.
 
     Returns
     -------
@@ -73,11 +73,13 @@ def prefix_clause(column: str, prefix: str) -> tuple[str, str]:
 
     Notes
     -----
-    SQLite only honors the escape character when the query carries an `ESCAPE` clause,
-    so the predicate and its argument are built together and must be used together.
+    GLOB is used instead of LIKE because SQLite's LIKE ignores the case of ASCII letters,
+    which would make `Data/` a prefix of `data/out.txt`.
+    GLOB compares exactly, and `%`, `_` and the backslash have no special meaning in it.
+    The predicate and its argument are built together and must be used together.
     """
-    escaped = prefix.replace("\\", "\\\\").replace("%", "\\%").replace("_", "\\_")
-    return f"{column} LIKE ? ESCAPE '\\'", f"{escaped}%"
+    escaped = prefix.replace("[", "[[]").replace("*", "[*]").replace("?", "[?]")
+    return f"{column} GLOB ?", f"{escaped}*"
 
 
 #
